@@ -315,6 +315,7 @@ func (c20) Run(ts *tape.Set, tier Tier) *Result {
 	var sig uint64
 	for rep := 0; rep < 3 && res.Violation == nil; rep++ {
 		st.ResetLog()
+		st.TrackGIDs = true
 		st.ReadPolicy = nil
 		st.Frag = fragFn(fragSeed+uint64(rep), fragMode)
 		w := world.New(st, false)
@@ -332,6 +333,11 @@ func (c20) Run(ts *tape.Set, tier Tier) *Result {
 		if opErr != nil {
 			res.Skipped, res.SkipReason = true, "fault-free operation failed: "+opErr.Error()
 			return res
+		}
+		if g := st.ReaderGoroutines(); g > 1 {
+			res.Violation = &Violation{Class: "c20/requests-from-several-goroutines/" + sc.Kind, Msg: fmt.Sprintf("%s issued its block requests from %d goroutines: their order is decided by the Go scheduler, not by the DAG", sc.Op, g)}
+			res.Excerpt = excerpt(st.Log, 12)
+			break
 		}
 		got := firstRequests(st.ReadCids)
 		same := len(got) == len(want)
